@@ -299,6 +299,26 @@ function of (committed state, block inputs) alone (generated fact; Go scenario
 `re-proposal-from-cached-proposal`) -/
 theorem proposal_header_assigned_from_inputs : headerAssignedFromInputsFact = true := by decide
 
+/-- the source tree writes the process-wide signature cache only under a positive verification of
+the tuple written (generated fact: every `SignatureCache.Set` / `addToCache()` site of `lib/crypto`
+with everything enclosing it; fails when a write appears on a failure branch or outside a guard) -/
+theorem signature_cache_written_only_when_verified : signatureCacheFact = true := by
+  set_option maxRecDepth 20000 in decide
+
+/-- **cache_contents_never_change_a_verdict.** For the signature-cache mechanism of the source tree:
+whatever a process verified before — any batches, of valid and forged signatures, in earlier blocks,
+discarded speculative executions and mempool checks, and any cache losses — the batch pre-check of a
+block (the only signature check of a block) gives every transaction the verdict a process with an
+empty cache gives. So the abstract `applyBlock (committed state, block)` of `paths_agree` does not
+depend on that history through the signature cache. (Go scenario `forged-signature-re-executed`;
+`SigCache.warm_cache_accepts_rejected_tuple` is the counterexample for the other mechanism.) -/
+theorem cache_contents_never_change_a_verdict {τ : Type} [DecidableEq τ] (verify : τ → Bool)
+    (evs : List (Canopy.SigCache.Ev τ)) (xs : List τ) :
+    (Canopy.SigCache.batch sigCacheCfgOfFacts verify (Canopy.SigCache.run sigCacheCfgOfFacts verify [] evs) xs).1 =
+      (Canopy.SigCache.batch sigCacheCfgOfFacts verify [] xs).1 :=
+  Canopy.SigCache.cache_never_changes_a_verdict
+    (show sigCacheCfgOfFacts.fillsOnlyVerified = true from signature_cache_written_only_when_verified) verify evs xs
+
 /-- non-vacuity: both former counterexample histories, on the repaired mechanism, end with the block
 applied (commit by replay): state 8 = 0 + 7 + 1 -/
 example :
